@@ -220,11 +220,10 @@ def resolver_entry_flags(ctx, rid):
     i_field = q.param_index(fn, lambda t: t == "bool")
     i_par = q.param_index(fn, lambda t: "TypeParameter]" in t)
     i_name = q.param_index(fn, lambda t: t.startswith("std::option::Option<&str"))
-    callers = [(b, n) for b, n in q.callers_of(ctx.P, fn["path"], GEN) if b["path"] != fn["path"]]
+    sites = q.call_terms(ctx, fn["path"], GEN)      # seen through private forwarding helpers
+    callers = [(b, n, t) for b, n, t in sites if b["path"] != fn["path"]]
     ctx.count("resolver entry points", len(callers), 2)
-    for b, n in callers:
-        N = _norm(ctx, b)
-        t = N.term(n)
+    for b, n, t in callers:
         args = t[2]
         fld = show(args[i_field])
         if "field" in cshort(b["path"]).lower():
@@ -236,11 +235,9 @@ def resolver_entry_flags(ctx, rid):
             ctx.expect(ok, rid, "entry/" + cshort(b["path"]), site(n), "plain entry: is_field=false, no parent params, no name",
                        "entry point calls the resolver as " + show(t))
     # nested recursive calls: literal false + None
-    N = _norm(ctx, fn)
-    nested = list(q.calls_to(fn["body"], fn["path"]))
+    nested = [(n, t) for b, n, t in sites if b["path"] == fn["path"]]
     ctx.count("nested resolver calls", len(nested), 7)
-    for n in nested:
-        t = N.term(n)
+    for n, t in nested:
         ok = show(t[2][i_field]) == "false" and show(t[2][i_name]) == "v1::None" and show(t[2][i_par]) == "P%d" % i_par
         ctx.expect(ok, rid, "nested-call/" + show(t[2][i_id])[-60:], site(n), "nested call passes is_field=false, None, own parent params",
                    "nested resolver call " + show(t))
@@ -286,7 +283,7 @@ def syn_arms(ctx, rid, strict_alloc=True):
     def C(x):
         return "%s(%s,%s)" % (conv, x, AP)
     exp = {
-        "Path": "Type::Path(if(Vec::is_empty(A.params)){T[#0](A.path)}else{T[#0 < #( #1 ),* >](A.path,Iterator::map(A.params,|1|{%s}))})" % C("C1_0"),
+        "Path": "Type::Path(if(slice::is_empty(A.params)){T[#0](A.path)}else{T[#0 < #( #1 ),* >](A.path,Iterator::map(A.params,|1|{%s}))})" % C("C1_0"),
         "Vec": "Type::Path(T[#0 :: vec :: Vec < #1 >](%s,%s))" % (AP, C("A.of")),
         "Array": "Type::Array(T[[ #0 ; #1 ]](%s,A.len))" % C("A.of"),
         "Tuple": "Type::Tuple(T[( #( #0 , )* )](Iterator::map(A.elements,|1|{%s})))" % C("C1_0"),
@@ -501,7 +498,7 @@ def enum_struct_ir(ctx, rid):
         expect_term(ctx, rid, "struct-ir/docs", structs[0], f["docs"], docs_exp, "type docs")
     # early return for non struct/enum
     bt = N.term(fn["body"], syms)
-    ok = bt[0] == "early" and show(bt[1][0][0]) == "Not(let TypeDef::Composite(_)|TypeDef::Variant(_)=%s.type_def)" % TY \
+    ok = bt[0] == "early" and show(bt[1][0][0]) == "Not((let TypeDef::Composite(_)=%s.type_def||let TypeDef::Variant(_)=%s.type_def))" % (TY, TY) \
         and show(bt[1][0][1]) == "return Ok(v1::None)"
     ctx.expect(ok, rid, "type-ir/only-struct-enum", fn["sp"], "an IR is built iff the definition is Composite or Variant",
                "early-return guard: " + (show(bt[1][0][0]) + " => " + show(bt[1][0][1]) if bt[0] == "early" else show(bt)[:200]))
@@ -554,7 +551,7 @@ def field_closures(ctx, rid):
             seen.add("unnamed")
             ctx.ok(rid, "field-closure/unnamed", site(c), "same field IR as the named closure, without ident")
         else:
-            ctx.bad(rid, "field-closure/unexpected", site(c), "a per-field closure deviates from the field-IR construction shared by named and unnamed fields\nexpected: %s\n      or: %s\nfound:    %s" % (exp_named, exp_unnamed, s))
+            ctx.bad(rid, "field-closure/unexpected", site(c), "a per-field closure deviates from the field-IR construction shared by named and unnamed fields\nfound:    %s\nexpected: %s\n      or: %s" % (s, exp_named, exp_unnamed))
     for k in ("named", "unnamed"):
         if k not in seen and len(cls) >= 2 and not any(i["key"] == "field-closure/unexpected" and not i["ok"] for i in ctx.instances):
             ctx.bad(rid, "field-closure/" + k, fn["sp"], "no %s-field closure found" % k)
@@ -600,16 +597,17 @@ def item_templates(ctx, rid):
     E = "P0.kind@TypeIRKind::Enum.0"
     exp_struct = ("{Extend::extend(P1,T[#0 #1 pub struct #2 #3 #4 #5](P0.derives,TypeIR::docs(P0),TypeIR::ident(P0),P0.type_params,"
                   "CompositeIR::struct_field_tokens(%s,TypeParameters::unused_params_phantom_data(P0.type_params),P0.insert_codec_attributes,P2),"
-                  "then(let CompositeIRKind::NoFields|CompositeIRKind::Unnamed(_)=%s.kind,T[;]())))}") % (S, S)
+                  "then((let CompositeIRKind::NoFields=%s.kind||let CompositeIRKind::Unnamed(_)=%s.kind),T[;]())))}") % (S, S, S)
     if "Struct" in arms:
         expect_term(ctx, rid, "item/struct", fn["sp"], arms["Struct"], exp_struct,
                     "`#derives #docs pub struct #ident #generics #fields #semi`; `;` iff the struct is a unit or tuple struct; marker from the unused-parameter set")
     else:
         ctx.bad(rid, "item/struct", fn["sp"], "no Struct arm")
-    VAR = ("Iterator::collect(Iterator::map(%s.variants,|1|{T[#0 #1 #2 #3](then(P0.insert_codec_attributes,T[# [ codec ( index = #0 ) ]](Literal::u8_unsuffixed(C1_0.0))),"
-           "C1_0.1.docs,C1_0.1.name,CompositeIR::enum_field_tokens(C1_0.1,P0.insert_codec_attributes,P2))}))") % E
+    EV = "elem(%s.variants)" % E
+    VAR = ("for(%s.variants){T[#0 #1 #2 #3](then(P0.insert_codec_attributes,T[# [ codec ( index = #0 ) ]](Literal::u8_unsuffixed(%s.0))),"
+           "%s.1.docs,%s.1.name,CompositeIR::enum_field_tokens(%s.1,P0.insert_codec_attributes,P2))}") % (E, EV, EV, EV, EV)
     PH = "TypeParameters::unused_params_phantom_data(P0.type_params)"
-    VARS = "mut[%s;.Vec::push(T[__Ignore ( #0 )](%s@v1::Some.0)) if P0.kind~TypeIRKind::Enum($)&&let v1::Some($)=%s]" % (VAR, PH, PH)
+    VARS = "vec+(%s,if(let v1::Some($)=%s){T[__Ignore ( #0 )](%s@v1::Some.0)}else{'()'})" % (VAR, PH, PH)
     exp_enum = "{Extend::extend(P1,T[#0 #1 pub enum #2 #3 { #( #4 , )* }](P0.derives,TypeIR::docs(P0),TypeIR::ident(P0),P0.type_params,%s))}" % VARS
     if "Enum" in arms:
         expect_term(ctx, rid, "item/enum", fn["sp"], arms["Enum"], exp_enum,
@@ -667,11 +665,11 @@ def field_templates(ctx, rid, strict_alloc=True):
     if len(bw) != 1:
         ctx.bad(rid, "missing-anchor/CompositeFieldIR::to_tokens", "", "impl ToTokensWithSettings for CompositeFieldIR not found")
     else:
-        exp_b = ("if(P0.is_boxed){Extend::extend(P1,T[#0 :: boxed :: Box < #1 >](P2.alloc_crate_path,TypePath::to_syn_type(P0.type_path,P2.alloc_crate_path)))}"
-                 "else{Extend::extend(P1,T[#0](TypePath::to_syn_type(P0.type_path,P2.alloc_crate_path)))}")
+        exp_b = ("Extend::extend(P1,if(P0.is_boxed){T[#0 :: boxed :: Box < #1 >](P2.alloc_crate_path,TypePath::to_syn_type(P0.type_path,P2.alloc_crate_path))}"
+                 "else{T[#0](TypePath::to_syn_type(P0.type_path,P2.alloc_crate_path))})")
         if not strict_alloc:
-            exp_b = [exp_b, ("if(P0.is_boxed){Extend::extend(P1,T[%s :: boxed :: Box < #%s >](%sTypePath::to_syn_type(P0.type_path,%s)))}"
-                             "else{Extend::extend(P1,T[#0](TypePath::to_syn_type(P0.type_path,%s)))}") % (ANY, ANY, ANY, ANY, ANY)]
+            exp_b = [exp_b, ("Extend::extend(P1,if(P0.is_boxed){T[%s :: boxed :: Box < #%s >](%sTypePath::to_syn_type(P0.type_path,%s))}"
+                             "else{T[#0](TypePath::to_syn_type(P0.type_path,%s))})") % (ANY, ANY, ANY, ANY, ANY)]
         expect_term(ctx, rid, "fields/box-wrap", bw[0]["sp"], _norm(ctx, bw[0]).term(bw[0]["body"]), exp_b,
                     "`<alloc>::boxed::Box<ty>` iff is_boxed, else `ty`; ty converted with the settings' alloc path")
 
@@ -806,8 +804,9 @@ def type_params_decl(ctx, rid):
         ctx.bad(rid, "missing-anchor/from_scale_info", "", "TypeParameters::from_scale_info not found")
         return
     t = _norm(ctx, fn).term(fn["body"])
-    P_ = ("Iterator::collect(Iterator::filter_map(Iterator::enumerate(P0),|1|{Option::map(C1_0.1.ty,|1|{type_path::TypeParameter{concrete_type_id:C2_0.id,"
-          "name:format_ident(F[_{__private::IdentFragmentAdapter(C1_0.0)}]),original_name:C1_0.1.name}})}))")
+    EP = "elem(Iterator::enumerate(P0))"
+    P_ = ("vec+(for(Iterator::enumerate(P0)){if(let v1::Some($)=%s.1.ty){type_path::TypeParameter{concrete_type_id:%s.1.ty@v1::Some.0.id,"
+          "name:format_ident(F[_{__private::IdentFragmentAdapter(%s.0)}]),original_name:%s.1.name}}else{'()'}})") % (EP, EP, EP, EP)
     ok = t[0] == "struct"
     if not ok:
         ctx.bad(rid, "params/result", fn["sp"], "from_scale_info does not return a TypeParameters literal: " + show(t)[:200])
@@ -818,7 +817,7 @@ def type_params_decl(ctx, rid):
     tt = [b for b in q.fn_by_suffix(ctx.P, "quote::ToTokens>::to_tokens", "scale_typegen") if "TypeParameters as" in b["path"]]
     if len(tt) == 1:
         expect_term(ctx, rid, "params/decl-tokens", tt[0]["sp"], _norm(ctx, tt[0]).term(tt[0]["body"]),
-                    "if(Not(Vec::is_empty(P0.params))){Extend::extend(P1,T[< #( #0 ),* >](P0.params))}else{'()'}", "`<_0, _1, ..>` over params in declaration order; nothing when empty")
+                    "if(Not(slice::is_empty(P0.params))){Extend::extend(P1,T[< #( #0 ),* >](P0.params))}else{'()'}", "`<_0, _1, ..>` over params in declaration order; nothing when empty")
     else:
         ctx.bad(rid, "missing-anchor/TypeParameters::to_tokens", "", "impl ToTokens for TypeParameters not found")
     mu = q.fn1(ctx.P, "TypeParameters::mark_used", "scale_typegen")
